@@ -400,10 +400,12 @@ PROPS = {
     ),
     "C09": app(
         "C09",
-        ["C09_order_irrelevant", "C09_wf_init", "C09_wf_step", "C09_replicas_agree", "C09_map_ranges_pinned",
+        ["C09_order_irrelevant", "C09_wf_init", "C09_wf_step", "C09_replicas_agree", "C09_mempool_irrelevant", "C09_mempool_replicas", "C09_map_ranges_pinned",
          "C09_clock_calls_pinned", "C09_fork_overrides_pinned"],
         "Theorem: every ABCI call of the model gives the same response and state for all iteration orders of all maps "
-        "ranged over (induction over histories; two replicas with independent orders agree). Facts regenerated from the "
+        "ranged over (induction over histories; two replicas with independent orders agree); mempool checks interleaved "
+        "anywhere, on any mempool state, do not change the answers to the block sequence (every call of the block sequence "
+        "commutes with replacing the mempool bookkeeping). Facts regenerated from the "
         "source pin the map-range sites and the clock/OS/randomness uses of package app. The real app is compared with the "
         "model on generated histories; each history is additionally replayed in a second OS process (GOMAXPROCS=1, GOGC=20) "
         "and several times in-process (Go randomises map iteration per range) with byte-wise comparison of the marshalled "
